@@ -75,14 +75,14 @@ def claimed():
     return [c['property_id'] for c in m['checks']]
 
 
-def intake_one(prop, src, i, extra_props):
+def intake_one(prop, src, i, extra_props, tag=''):
     patch = os.path.join(src, f'patch_{i}.diff')
     demo = os.path.join(src, f'demo_{i}.py')
     notes = os.path.join(src, f'notes_{i}.md')
     if not (os.path.exists(patch) and os.path.exists(demo)):
         return None
     d, rc, out = scratch_tree(patch)
-    rep = {'id': f'{prop}-{i}', 'property': prop, 'applies': rc == 0}
+    rep = {'id': f'{prop}-{tag}{i}', 'property': prop, 'applies': rc == 0}
     try:
         if rc:
             rep['apply_error'] = out[-300:]
@@ -127,9 +127,12 @@ def intake_one(prop, src, i, extra_props):
 
 
 def intake(prop, src=None, extra_props=()):
+    tag = ''
+    if src and 'seedout' in src and src.rstrip('/').split('/')[-2] != 'seedout':
+        tag = 'r' + src.rstrip('/').split('/')[-2].replace('seedout', '') + '-'
     src = src or f'/tmp/seedout/{prop}'
     with ThreadPoolExecutor(max_workers=3) as ex:
-        for rep in ex.map(lambda i: intake_one(prop, src, i, list(extra_props)), range(1, 6)):
+        for rep in ex.map(lambda i: intake_one(prop, src, i, list(extra_props), tag), range(1, 6)):
             if rep is None:
                 continue
             print(json.dumps({k: v for k, v in rep.items() if k not in ('checks',)}, default=str)[:900])
